@@ -14,6 +14,18 @@ def _rayon(n):
 
 
 PLAN = {
+    "C07": {
+        "level": "model_checking",
+        "engines": lambda tier: [
+            _e("script", "indep/loomdrv.py", "c07", also_build=[("loom", "loommc")]),
+            _e("release", "stressmc", "c07"),
+        ],
+        "assumptions": [
+            "loom explores the interleavings of mutex/condvar/thread operations of the real compression.rs and file.rs (built with --cfg jubako_verif_loom: loom Mutex/Condvar, loom thread instead of the rayon pool, 2-byte chunks); Arc stays std's (no scheduling point, sound); sequentially consistent exploration, preemption-bounded (bound completed reported per configuration)",
+            "the cluster cache (Mutex<LruCache>), the RwLock raw->plain switch and the OnceLock pack slots are not under loom: they are exercised by the free-running stress engine only (stressmc, labelled sampling, never the source of a 'held' verdict on its own)",
+            "weak-memory effects beyond what loom models are out of reach",
+        ],
+    },
     "C08": {
         "level": "model_checking",
         "engines": lambda tier: [_e("release", "pipemc", "c08")],
